@@ -48,6 +48,11 @@ def _finish(mod, run, replay=False):
     )
 
 
+def harness_mod():
+    from . import harness
+    return harness
+
+
 def main(argv=None):
     ap = argparse.ArgumentParser()
     ap.add_argument("pid")
@@ -79,6 +84,8 @@ def main(argv=None):
         run = Run(pid, args.tier, seed, shard=(i, n))
         try:
             mod.run(run)
+        except harness_mod().TooManyTimeouts as e:
+            run.inconclusive_because("case-watchdog:%s" % e)
         except Exception as e:  # harness error: never a verdict
             import traceback
             run.inconclusive_because("harness-error:%s:%s" % (type(e).__name__, str(e)[:200]))
@@ -93,6 +100,8 @@ def main(argv=None):
         run.shard = (0, 1)
         try:
             mod.run(run)
+        except harness_mod().TooManyTimeouts as e:
+            run.inconclusive_because("case-watchdog:%s" % e)
         except Exception as e:
             import traceback
             traceback.print_exc()
